@@ -27,6 +27,8 @@ type CorpusOpt struct {
 	BodyPad    int    // max extra body bytes
 	BaseMID    uint64 // 0 => T0
 	Tag        string // distinguishes bodies of different corpora
+	Agg        bool   // add single-valued aggregation fields g1,g2 (groups) and v1,v2 (numeric)
+	Groups     int    // cardinality of g2 (g1 has at most 4 values)
 }
 
 type Corpus struct {
@@ -65,6 +67,22 @@ func NumWord(r *h.Rng) string {
 		return strconv.FormatFloat(float64(r.Range(-400, 400))/8, 'f', -1, 64)
 	}
 	return strconv.Itoa(r.Range(0, 1000))
+}
+
+var aggNumPool = []string{"0", "-0", "1", "2", "3", "10", "-1", "-7", "2.5", "-3.75", "0.125", "1e3", "1e-3", "-1e2", "123456789", "0.000125", "+7", "007", "4.0", "1e15", "-2.5e-7", "9007199254740993"}
+
+// AggNum returns a string that parses as a finite float (negatives, decimals, exponents, -0, large/small magnitudes).
+func AggNum(r *h.Rng) string {
+	switch r.Intn(4) {
+	case 0:
+		return h.Pick(r, aggNumPool)
+	case 1:
+		return strconv.Itoa(r.Range(-1000, 1000))
+	case 2:
+		return strconv.FormatFloat(float64(r.Range(-8000, 8000))/16, 'f', -1, 64)
+	default:
+		return strconv.FormatFloat(float64(r.Range(-999, 999))*[]float64{1e-6, 1e-3, 1, 1e3, 1e9}[r.Intn(5)], 'g', -1, 64)
+	}
 }
 
 func MakeCorpus(r *h.Rng, o CorpusOpt) *Corpus {
@@ -115,6 +133,24 @@ func MakeCorpus(r *h.Rng, o CorpusOpt) *Corpus {
 			c.Vocab[NumField] = append(c.Vocab[NumField], w)
 		}
 	}
+	if o.Agg {
+		if o.Groups <= 0 {
+			o.Groups = 20
+		}
+		c.Vocab["g1"] = []string{"ga", "gb", "g-c", "g.d"}[:r.Range(1, 4)]
+		for i := 0; i < o.Groups; i++ {
+			c.Vocab["g2"] = append(c.Vocab["g2"], fmt.Sprintf("grp%d", i))
+		}
+		nv := r.Range(1, 30)
+		seen := map[string]bool{}
+		for len(c.Vocab["v1"]) < nv {
+			v := AggNum(r)
+			if !seen[v] {
+				seen[v] = true
+				c.Vocab["v1"] = append(c.Vocab["v1"], v)
+			}
+		}
+	}
 	ids := map[model.ID]bool{}
 	c.MinMID, c.MaxMID = ^uint64(0), 0
 	for i := 0; i < o.N; i++ {
@@ -143,7 +179,21 @@ func MakeCorpus(r *h.Rng, o CorpusOpt) *Corpus {
 				d.Toks = append(d.Toks, model.Tok{F: f, V: h.Pick(r, c.Vocab[f])})
 			}
 		}
-		if r.Chance(1, 10) && len(d.Toks) > 0 { // repeated token inside one document
+		if o.Agg {
+			if !r.Chance(1, 6) {
+				d.Toks = append(d.Toks, model.Tok{F: "g1", V: h.Pick(r, c.Vocab["g1"])})
+			}
+			if !r.Chance(1, 10) {
+				d.Toks = append(d.Toks, model.Tok{F: "g2", V: h.Pick(r, c.Vocab["g2"])})
+			}
+			if !r.Chance(1, 5) {
+				d.Toks = append(d.Toks, model.Tok{F: "v1", V: h.Pick(r, c.Vocab["v1"])})
+			}
+			if r.Chance(1, 2) {
+				d.Toks = append(d.Toks, model.Tok{F: "v2", V: AggNum(r)})
+			}
+		}
+		if r.Chance(1, 10) && len(d.Toks) > 0 && !o.Agg { // repeated token inside one document
 			d.Toks = append(d.Toks, d.Toks[r.Intn(len(d.Toks))])
 		}
 		pad := ""
